@@ -107,5 +107,12 @@ ensures
                  contract="""ensures
     r.0 == self.ent.stored().0 && *r.1 == self.ent.stored().1, // @ob C11.V.compact.get_returns_index"""),
         ]),
+        dict(file="src/compact.rs", path="impl Iterator for IntoIter / fn next", closure=0, expr_closure=True,
+             header_re=r"^\|\((\w+), \(_, (\w+)\)\)\|$", as_fn="intoiter_next__entry", generics="<K, V>",
+             params="$1: K, $2: V", ret="out", ret_type="(K, V)",
+             obligation="C11.V.compact.into_iter_entry", rules=[],
+             contract="""ensures
+    // key and stored value are handed over unchanged (the index is dropped: it is the position)
+    out.0 == $1 && out.1 == $2, // @ob C11.V.compact.into_iter_entry"""),
     ],
 )
